@@ -69,20 +69,26 @@ func (c *Ctx) replyCtorsByCode(lo, hi int64) map[*ssa.Function]bool {
 			}
 		}
 	}
-	for _, fn := range ctors {
-		code, ok := direct[fn]
-		if !ok {
+	// wrappers of wrappers (`NoErrReply` -> `NoErrExplicitTs` -> `NoErrParamsExplicitTs`): the code of
+	// the constructor they end in
+	for round := 0; round < 3; round++ {
+		for _, fn := range ctors {
+			if _, ok := direct[fn]; ok {
+				continue
+			}
 			core.AllInstrs(fn, func(in ssa.Instruction) {
 				if call, isCall := in.(*ssa.Call); isCall {
 					if cal := call.Call.StaticCallee(); cal != nil {
 						if k, has := direct[cal]; has {
-							code, ok = k, true
+							direct[fn] = k
 						}
 					}
 				}
 			})
 		}
-		if ok && code >= lo && code < hi {
+	}
+	for _, fn := range ctors {
+		if code, ok := direct[fn]; ok && code >= lo && code < hi {
 			out[fn] = true
 		}
 	}
@@ -128,6 +134,13 @@ func checkC08(c *Ctx) {
 				// exception (one row): linking attachments is best effort by design ("not a critical
 				// error, continue execution"); what a failed link means for garbage collection is C16's business
 				r.Info("C08.1-failed-write-changes-nothing", construct, c.pos(call), "exception: attachment linking is best effort; failure is logged and the request proceeds")
+				continue
+			}
+			if f, _ := c.isStoreCall(call); f != nil && f.Name() == "UpdateLastSeen" {
+				// exception (one row): the last-seen timestamp is bookkeeping that rides on a {leave} or a
+				// disconnect; its failure is logged and the request it rides on (which is not this write)
+				// is answered on its own merits
+				r.Info("C08.1-failed-write-changes-nothing", construct, c.pos(call), "exception: the last-seen update is best effort; the request it accompanies is not this write")
 				continue
 			}
 			nWrites++
